@@ -164,6 +164,10 @@ class SparseDense(Dense_):
     def __iter__(self) -> Iterator:
         sort = sorted(self._values.items())
 
+        if not sort:
+            yield from repeat(0,self._length)
+            return
+
         yield from repeat(0,sort[0][0])
         yield sort[0][1]
 
